@@ -720,6 +720,12 @@ def sch_prio(ctx: Ctx) -> RuleResult:
     m = model(ctx)
     form, key = m.sel_form, m.sel_key
     inst = {"selection": norm_src(m.sel_expr)}
+    if getattr(m, "sel_subset", None):
+        r.ob(False, inst)
+        r.violate(f"{m.fn.short}: the selection ranks only a part of the runnable set ({m.sel_subset[0]}() may return {m.sel_subset[1]})",
+                  m.fn.loc(m.sel_stmt), "the node that starts must have the greatest compound priority among ALL ready nodes: a ready node "
+                  "that the filter leaves out is overtaken by a node of lower compound priority", norm_src(m.sel_expr))
+        return r
     if form != "max":
         r.ob(False, inst)
         r.violate(f"{m.fn.short}: selection is '{form}' over the runnable set, not 'max'", m.fn.loc(m.sel_stmt),
